@@ -7,6 +7,9 @@ package ir
 import (
 	"fmt"
 	"hash/fnv"
+	"math"
+	"math/big"
+	"strconv"
 	"strings"
 )
 
@@ -81,6 +84,29 @@ type Node struct {
 func N(k Kind, op string, kids ...*Node) *Node { return &Node{K: k, Op: op, Kids: kids} }
 
 func IsStmt(k Kind) bool { return k >= Let }
+
+// NumKey: a key that is equal for two spellings of the same numeric literal.
+func NumKey(text string) string {
+	t := strings.ToLower(text)
+	if len(t) > 1 && t[0] == '0' && (t[1] == 'x' || t[1] == 'b' || t[1] == 'o') {
+		if v, ok := new(big.Int).SetString(t[2:], map[byte]int{'x': 16, 'b': 2, 'o': 8}[t[1]]); ok {
+			return "i" + v.String()
+		}
+		return t
+	}
+	if len(t) > 1 && t[0] == '0' && strings.Trim(t, "01234567") == "" {
+		if v, ok := new(big.Int).SetString(t[1:], 8); ok { // legacy octal
+			return "i" + v.String()
+		}
+	}
+	if f, err := strconv.ParseFloat(t, 64); err == nil {
+		if f == math.Trunc(f) && math.Abs(f) < 1e15 {
+			return "i" + strconv.FormatFloat(f, 'f', 0, 64)
+		}
+		return "f" + strconv.FormatUint(math.Float64bits(f), 16)
+	}
+	return t
+}
 
 // SimpleStr reports whether s consists only of characters whose spelling in a
 // string literal is unambiguous (no escapes, quotes, or non-ASCII).
@@ -173,7 +199,9 @@ func diff(a, b *Node, path string) string {
 		}
 		return ""
 	}
-	if a.Op != b.Op {
+	if a.K == Num && a.Op != b.Op && NumKey(a.Op) == NumKey(b.Op) {
+		// the same number in another spelling (`0XFF` / `0xff`, `1E+3` / `1e3`)
+	} else if a.Op != b.Op {
 		return fmt.Sprintf("%s: %s op %q vs %q", path, a.K, a.Op, b.Op)
 	}
 	if len(a.Params) != len(b.Params) {
